@@ -12,7 +12,7 @@ import copy
 import re as _re
 
 from . import rx
-from .facts import norm_ty, src
+from .facts import norm_ty, src, find_all
 
 
 STD_RECEIVERS = {"String", "str", "Vec", "Option", "Result", "char", "u8", "u16", "u32", "u64", "usize", "i32", "i64", "bool", "Rc", "Box", "Mode", "SFlag"}
@@ -999,6 +999,30 @@ class Probe:
                 elif m == "all":
                     return False
             return {"find": None, "position": None, "any": False, "all": True}[m]
+        if m == "flatten" and not e["args"] and (recv is None or (isinstance(recv, tuple) and len(recv) == 2 and recv[0] == "some" and (recv[1] is None or (isinstance(recv[1], tuple) and len(recv[1]) == 2 and recv[1][0] == "some")))):
+            # Option<Option<T>>::flatten
+            return None if recv is None else recv[1]
+        if m == "try_fold" and len(e["args"]) == 2 and isinstance(recv, list):
+            # the fold that stops at the first None / Err of its step function
+            acc = self.ev(e["args"][0], env)
+            fv = self.ev(e["args"][1], env)
+            kind = None
+            while recv:
+                it = recv.pop(0)  # (an iterator: what was folded is consumed)
+                r = self.apply(fv, [acc, it])
+                if r is None or (isinstance(r, tuple) and len(r) == 2 and r[0] == "err"):
+                    return r
+                if not (isinstance(r, tuple) and len(r) == 2 and r[0] in ("some", "ok")):
+                    raise NoEval("try_fold step yields %r" % (r,))
+                kind, acc = r[0], r[1]
+            if kind is None:
+                clo = e["args"][1]
+                oks = find_all(clo, lambda n: isinstance(n, dict) and n.get("k") == "path" and n.get("segs", [None])[-1] == "Ok")
+                somes = find_all(clo, lambda n: isinstance(n, dict) and n.get("k") == "path" and n.get("segs", [None])[-1] == "Some")
+                if bool(oks) == bool(somes):
+                    raise NoEval("try_fold over nothing: Option or Result not told apart")
+                kind = "ok" if oks else "some"
+            return (kind, acc)
         if m == "fold" and len(e["args"]) == 2 and isinstance(recv, list):
             acc = self.ev(e["args"][0], env)
             fv = self.ev(e["args"][1], env)
